@@ -8,6 +8,7 @@
   carrier and every string.  `load` is the identity on non-text values.
 -/
 import TypelibModel.Lemmas.WF
+import TypelibModel.Lemmas.JsonRT
 import TypelibModel.Model.Leaf
 namespace Typelib.C14
 open Typelib
@@ -130,5 +131,188 @@ theorem unmarshal_carrier (env : Env) (today : Int) (c : Carrier) (s : Str) (n :
 
 /-- Non-vacuity: JSON text in a writable memoryview into `list[int]`, evaluated by the model. -/
 example : um [] (pyLeaves []) 5 (.coll .list (.scalar .int)) (.text .mviewW "[1]".toList) = .ok (.list [.int 1]) := by rfl
+
+/-! ### JSON text of a wire value is equivalent to the decoded value
+
+`plainWire w` (Model/JsonText.lean) is the printer's domain inside the executable `strload` fragment:
+None / bool / 64-bit int / str without control characters other than `\n \r \t \b \f` / lists / dicts
+with pairwise distinct `str` keys; `renderJson w` is `json.dumps(w, separators=(",", ":"),
+ensure_ascii=False)` and `renderJsonSp w` is `json.dumps(w, ensure_ascii=False)`.
+`Lemmas/JsonRT.lean` proves that the modelled `strload` reads both back. -/
+
+/-- `serdes.strload` (as the routines call it) returns what a JSON decoder returns for JSON text. -/
+theorem pySl_render (w : Val) (hw : plainWire w = true) : pySl (renderJson w) = .ok w := by
+  simp [pySl, strload_render w hw]
+
+theorem pySl_renderSp (w : Val) (hw : plainWire w = true) : pySl (renderJsonSp w) = .ok w := by
+  simp [pySl, strload_renderSp w hw]
+
+/-- The inputs that carry the JSON text of `w`: a `str` or any of the four bytes-like carriers, in
+    either spelling of the separators. -/
+inductive JsonTextOf (w : Val) : Val → Prop
+  | str : JsonTextOf w (.str (renderJson w))
+  | carrier (c : Carrier) : JsonTextOf w (.text c (renderJson w))
+  | strSp : JsonTextOf w (.str (renderJsonSp w))
+  | carrierSp (c : Carrier) : JsonTextOf w (.text c (renderJsonSp w))
+
+/-- **`serdes.load` of the JSON text of a wire value is the decoded value**, for every carrier. -/
+theorem load_json_text (env : Env) (today : Int) (w x : Val) (hw : plainWire w = true)
+    (hx : JsonTextOf w x) : load env (pyLeaves env today) x = .ok w := by
+  cases hx with
+  | str => exact pySl_render w hw
+  | carrier c => exact pySl_render w hw
+  | strSp => exact pySl_renderSp w hw
+  | carrierSp c => exact pySl_renderSp w hw
+
+/-- A wire value that is not itself a string is not text: `load` returns it untouched. -/
+theorem load_plain_nonstr (env : Env) (L : Leaves) (w : Val) (hw : plainWire w = true)
+    (hns : ∀ s, w ≠ .str s) : load env L w = .ok w := by
+  cases w with
+  | str s => exact absurd rfl (hns s)
+  | none | bool _ | int _ | list _ | dict _ => rfl
+  | _ => simp [plainWire] at hw
+
+/-- … hence `load(text of w) = load(w)` for every plain wire value `w` other than a string (for a
+    string `w`, `load w` decodes `w` itself once more). -/
+theorem load_json_text_eq (env : Env) (today : Int) (w x : Val) (hw : plainWire w = true)
+    (hns : ∀ s, w ≠ .str s) (hx : JsonTextOf w x) :
+    load env (pyLeaves env today) x = load env (pyLeaves env today) w := by
+  rw [load_json_text env today w x hw hx, load_plain_nonstr env _ w hw hns]
+
+/-- The annotations whose routine begins with `serdes.load`: collections (list / set / frozenset /
+    deque / `tuple[T, ...]`), fixed tuples, mappings, structured classes, and wrappers of them. -/
+def container : Ty → Bool
+  | .coll _ _ | .tuple _ | .dict _ _ | .cls _ => true
+  | .wrap _ t => container t
+  | _ => false
+
+mutual
+  /-- … and unions / Optionals of them (a `None` member rejects a container and its text alike). -/
+  def jsonTextTy : Ty → Bool
+    | .coll _ _ | .tuple _ | .dict _ _ | .cls _ => true
+    | .none => true
+    | .wrap _ t => jsonTextTy t
+    | .union ms => jsonTextTys ms
+    | _ => false
+  termination_by structural t => t
+  def jsonTextTys : List Ty → Bool
+    | [] => true
+    | t :: ts => jsonTextTy t && jsonTextTys ts
+  termination_by structural ts => ts
+end
+
+theorem jsonTextTys_mem : ∀ {ts : List Ty}, jsonTextTys ts = true → ∀ t ∈ ts, jsonTextTy t = true := by
+  intro ts
+  induction ts with
+  | nil => intro _ t ht; cases ht
+  | cons a as ih =>
+    intro h t ht
+    simp only [jsonTextTys, Bool.and_eq_true] at h
+    cases ht with
+    | head => exact h.1
+    | tail _ hm => exact ih h.2 t hm
+
+theorem container_jsonTextTy : ∀ t : Ty, container t = true → jsonTextTy t = true := by
+  intro t
+  induction t with
+  | wrap w t ih => intro h; simp only [container] at h; simp only [jsonTextTy]; exact ih h
+  | coll _ _ _ | tuple _ | dict _ _ _ _ | cls _ => intro _; simp [jsonTextTy]
+  | _ => intro h; simp [container] at h
+
+/-- Two inputs that `load` maps to the same outcome (and that `NoneTypeUnmarshaller` treats alike)
+    are indistinguishable for every routine that begins with `load`. -/
+theorem um_congr_load (env : Env) (L : Leaves) (x y : Val) (hl : load env L x = load env L y)
+    (hn : umNone x = umNone y) :
+    ∀ n t, jsonTextTy t = true → um env L n t x = um env L n t y := by
+  intro n
+  induction n with
+  | zero => intro t _; rfl
+  | succ n ih =>
+    intro t ht
+    cases t with
+    | coll k e => simp only [um, hl]
+    | tuple es => simp only [um, hl]
+    | dict k e => simp only [um, hl]
+    | cls c => simp only [um, hl]
+    | none => simp only [um, hn]
+    | wrap w t' =>
+      simp only [jsonTextTy] at ht
+      simp only [um]
+      exact ih t' ht
+    | union ms =>
+      simp only [jsonTextTy] at ht
+      simp only [um]
+      apply firstOk_congr
+      intro m hm
+      have hm' : jsonTextTy m = true := by
+        unfold unionOrder at hm
+        split at hm
+        · cases hm with
+          | head => rfl
+          | tail _ h => exact jsonTextTys_mem ht m (List.mem_filter.mp h).1
+        · exact jsonTextTys_mem ht m hm
+      exact ih m hm'
+    | _ => simp [jsonTextTy] at ht
+
+/-- The same for the union-free container annotations, without the clause on `None`. -/
+theorem um_congr_load_container (env : Env) (L : Leaves) (x y : Val) (hl : load env L x = load env L y) :
+    ∀ n t, container t = true → um env L n t x = um env L n t y := by
+  intro n
+  induction n with
+  | zero => intro t _; rfl
+  | succ n ih =>
+    intro t ht
+    cases t with
+    | coll k e => simp only [um, hl]
+    | tuple es => simp only [um, hl]
+    | dict k e => simp only [um, hl]
+    | cls c => simp only [um, hl]
+    | wrap w t' =>
+      simp only [container] at ht
+      simp only [um]
+      exact ih t' ht
+    | _ => simp [container] at ht
+
+/-- **C14, text equivalence.**  For collection, tuple, mapping and structured `T` (and wrappers of
+    them), passing the JSON text of a plain wire value `w` — as `str` or in any bytes-like carrier,
+    compact or with Python's default separators — is equivalent to passing `w` itself, for every
+    `w` that is not itself a string (None, bool, int, list, dict). -/
+theorem um_json_text (env : Env) (today : Int) (w x : Val) (hw : plainWire w = true)
+    (hns : ∀ s, w ≠ .str s) (hx : JsonTextOf w x) (n : Nat) (t : Ty) (ht : container t = true) :
+    um env (pyLeaves env today) n t x = um env (pyLeaves env today) n t w :=
+  um_congr_load_container env _ x w (load_json_text_eq env today w x hw hns hx) n t ht
+
+/-- A list or dict wire value. -/
+def isContainerWire : Val → Bool
+  | .list _ | .dict _ => true
+  | _ => false
+
+/-- … and for unions / Optionals of such annotations when `w` is a list or a dict (the text `null`
+    is *not* equivalent to `None` under `Optional[list[int]]`: the `None` routine does not decode text
+    and the list routine rejects None, whereas None itself is accepted — see the example below). -/
+theorem um_json_text_union (env : Env) (today : Int) (w x : Val) (hw : plainWire w = true)
+    (hc : isContainerWire w = true) (hx : JsonTextOf w x) (n : Nat) (t : Ty) (ht : jsonTextTy t = true) :
+    um env (pyLeaves env today) n t x = um env (pyLeaves env today) n t w := by
+  have hns : ∀ s, w ≠ .str s := by intro s h; subst h; simp [isContainerWire] at hc
+  have hn : umNone x = umNone w := by
+    cases hx <;> cases w <;> simp [isContainerWire] at hc <;> rfl
+  exact um_congr_load env _ x w (load_json_text_eq env today w x hw hns hx) hn n t ht
+
+/-- Non-vacuity: the hypotheses hold for `{"a":[1,null]}` under `dict[str, list[int | None]]` … -/
+example : plainWire (.dict [(.str ['a'], .list [.int 1, .none])]) = true
+    ∧ container (.dict (.scalar .str) (.coll .list (.union [.scalar .int, .none]))) = true := by decide
+/-- … and for `[1]` in a writable memoryview under `list[int]` both sides evaluate to `[1]`. -/
+example : um [] (pyLeaves []) 5 (.coll .list (.scalar .int)) (.text .mviewW (renderJson (.list [.int 1])))
+    = .ok (.list [.int 1]) := by
+  rw [um_json_text [] 0 (.list [.int 1]) _ (by decide) (by intro s h; cases h) (.carrier .mviewW) 5 _ rfl]
+  rfl
+
+/-- What holds outside `container`: a scalar routine decodes text but does not `load` it, so the
+    text of a wire value is *not* equivalent to the value (`int("[1]")` is a ValueError,
+    `unmarshal(int, [1])` is 1); and the text `null` is not `None` for an Optional. -/
+example : um [] (pyLeaves []) 3 (.scalar .int) (.str (renderJson (.list [.int 1]))) = .error .value
+    ∧ um [] (pyLeaves []) 3 (.scalar .int) (.list [.int 1]) = .ok (.int 1) := ⟨rfl, rfl⟩
+example : um [] (pyLeaves []) 3 (.union [.coll .list (.scalar .int), .none]) (.str (renderJson .none)) = .error .value
+    ∧ um [] (pyLeaves []) 3 (.union [.coll .list (.scalar .int), .none]) .none = .ok .none := ⟨rfl, rfl⟩
 
 end Typelib.C14
